@@ -992,6 +992,40 @@ var constructionHelpers = map[string]string{
 	"server.applyReservedStreamOverrides": "server.newStream",
 }
 
+// functions that complete the operation they are about to propose (the value names the parameter that holds it): the
+// request object is not state — every server, the proposer included, builds its streams from the decoded log entry
+var proposalBuilders = map[string]string{
+	"server.(*metadataAPI).CreateStream": "req",
+}
+
+// rootsAtParam follows field reads / addresses from v down to a parameter of the given name.
+func rootsAtParam(v ssa.Value, name string) bool {
+	for i := 0; i < 8 && v != nil; i++ {
+		switch x := v.(type) {
+		case *ssa.Parameter:
+			return x.Name() == name
+		case *ssa.FieldAddr:
+			v = x.X
+		case *ssa.Field:
+			v = x.X
+		case *ssa.UnOp:
+			v = x.X
+		case *ssa.Phi:
+			for _, e := range x.Edges {
+				if !rootsAtParam(e, name) {
+					if _, fresh := e.(*ssa.Alloc); !fresh {
+						return false
+					}
+				}
+			}
+			return true
+		default:
+			return false
+		}
+	}
+	return false
+}
+
 // immutableTarget: t is a pointer to a named struct none of whose fields is stored to in hand-written module code except
 // on objects still under construction (fresh allocation in the same function).
 func immutableTarget(c *eng.Ctx, t types.Type) bool {
@@ -1016,6 +1050,9 @@ func immutableTarget(c *eng.Ctx, t types.Type) bool {
 		for _, a := range eng.StoresToField(c.P, st.Field(i), true) {
 			if strings.HasSuffix(c.P.Fset.Position(a.Fn.Pos()).Filename, ".pb.go") {
 				continue
+			}
+			if param, ok := proposalBuilders[ir.FuncKey(a.Fn)]; ok && rootsAtParam(a.Base, param) {
+				continue // the operation that is about to be proposed is still being completed; no stream holds it yet
 			}
 			if ctor, ok := constructionHelpers[ir.FuncKey(a.Fn)]; ok {
 				callers := eng.Index(c.P).OuterCallers(strings.Replace(strings.Replace(ir.FuncKey(a.Fn), "(*", "", 1), ")", "", 1))
